@@ -807,31 +807,52 @@ def run(ctx):
     stream_raw(ctx, acc, q(150, 2500))
     if ctx.thorough:
         sweep(ctx, acc)
-    res["streams"] = 7
+    res["streams"] = 9
     res["distribution"].setdefault("model_differences_outside_the_property", 0)
-    res["notes"].append("malformed/raw stream and strict-unsorted WebVTT: model vs implementation compared incl. exception "
-                        "class; %d differences (recorded, not failing: the property is silent there); first: %s" % (
+    res["notes"].append("malformed/raw stream, strict-unsorted WebVTT and blank paragraphs with junk time attributes: model "
+                        "vs implementation compared incl. exception class; %d differences (recorded, NOT failing: the "
+                        "property is silent there); first: %s" % (
                             res["distribution"]["model_differences_outside_the_property"],
                             str(res.get("model_differences", [None])[0])[:300]))
-    res["rule"] = ("abstract documents of 1-6 cues per format rendered by the Coq spec renderer: hours from "
-                   "{0,1,9,10,23,24,25,99,100,999}+random with 0-3 extra leading zeros, minutes/seconds {0,1,9,10,59}+random, "
-                   "ms {0,1,9,10,99,100,999}+random, SRT fraction absent or 3 digits, DFXP fractions of length 1-20 with "
-                   "leading zeros, frames {0,1,14,15,29}+random, offsets in h/m/s/ms/f with integer and fractional counts, "
-                   "begin+dur, MicroDVD frames incl. 201/203/123/89999999 under 15 declared rates or the default, SAMI "
-                   "interleavings of 1-3 languages with blank paragraphs, WebVTT shift in {0,+-1,+-999,+-3600000,12345} "
-                   "strict and lenient, LF and CRLF, 0-2 extra blank lines, cues without text. Non-trivial: a distinct "
-                   "stamp with a non-zero hour, a fraction, a frame field, an offset metric, a shift, a non-zero frame "
-                   "number, or a SAMI language with >= 2 syncs.")
+    res["rule"] = ("abstract documents per format, 1-6 cues (about 1 in 40: 60 / 150 / 300 cues), stamps rendered by the Coq "
+                   "spec renderer (SRT, WebVTT, MicroDVD: the whole document; DFXP, SAMI: the attribute strings, the "
+                   "document around them is assembled by Python): hours from {0,1,9,10,23,24,25,99,100,999}+random with 0-3 "
+                   "extra leading zeros, minutes/seconds {0,1,9,10,59}+random, ms {0,1,9,10,99,100,999}+random, SRT / WebVTT "
+                   "fraction absent or exactly 3 digits (declared decision), DFXP fractions of length 1-20 with leading "
+                   "zeros, frames {0,1,14,15,29}+random, offsets in h/m/s/ms/f with integer and fractional counts, begin+dur "
+                   "(both readings accepted), MicroDVD frames incl. 201/203/123/89999999 under 15 declared rates or the "
+                   "default. 35% of the SRT, WebVTT and MicroDVD documents have cues in arbitrary order (shuffled, "
+                   "overlapping, end before start, equal starts); the lang option of the three readers that take it is "
+                   "varied ('en-US', 'fr', '', None) and the times are read from THAT language, no other language may "
+                   "appear. WebVTT: 1-3 blanks or tabs around '-->', NOTE / STYLE / identifier lines before a cue, shift in "
+                   "{0,+-1,+-999,+-3600000,12345}, strict and lenient; LF and CRLF, 0-2 extra blank lines, cues without "
+                   "text (in the domain for MicroDVD, counted out for SRT / WebVTT). DFXP documents: 1-4 divisions, "
+                   "SAME-language and NESTED divisions, languages on tt / div / default, blank paragraphs; SAMI: 1-3 "
+                   "interleaved languages with blank paragraphs. Explicit well-formed spellings (failing stream): SAMI "
+                   "float-literal starts, WebVTT header text / BOM, CRLF SRT without final newline, MicroDVD rates .5 1e2 +25, "
+                   "DFXP '1s' followed by a line break. ttp:frameRate other than 30: own stream, known finding. "
+                   "Non-trivial: a distinct stamp with a non-zero hour, a fraction, a frame field, an offset metric, a "
+                   "shift, a non-zero frame number, or a SAMI language with >= 2 syncs.")
     res["clauses"] = {
-        "theorem": ["SRT/WebVTT/DFXP clock and offset/MicroDVD stamp parsers return floor(instant*10^6) for all field "
-                    "values, paddings and fraction lengths (C01_*_exact)",
-                    "DFXP begin+dur, WebVTT shift", "SAMI back-filling over all strictly increasing sync lists, 4 s tail",
-                    "document level of SRT, WebVTT and MicroDVD at string level: one caption per non-empty cue, in order "
-                    "(C01_srt_doc_exact, C01_vtt_doc_exact, C01_mdvd_doc_exact, C01_vtt_validation_transparent)"],
-        "correspondence_only": ["DFXP/SAMI text -> abstract tree (BeautifulSoup / html.parser / lxml); from the tree on it is a "
-                                "theorem (C01_dfxp_tree_exact, C01_sami_tree_exact)",
-                                "SAMI int(float(start)) on digit strings below 2^53",
-                                "Python int()/isdigit()/\\d outside ASCII digit strings (never generated)"]}
+        "theorem": ["SRT/WebVTT/DFXP clock and offset/MicroDVD stamp parsers of the model return floor(instant*10^6) for all "
+                    "field values and paddings (fraction length free for DFXP, 0 or 3 digits for SRT/WebVTT) (C01_*_exact)",
+                    "DFXP begin+dur: the model's answer is one of the two readings the oracle accepts "
+                    "(C01_dfxp_div_meets_oracle)", "SAMI back-filling over all strictly increasing sync lists, 4 s tail",
+                    "document level of SRT, WebVTT and MicroDVD at string level, cues in ANY order: one caption per "
+                    "non-empty cue, in document order (C01_srt_doc_exact, C01_vtt_doc_exact, C01_mdvd_doc_exact)",
+                    "DFXP abstract document with same-language and nested divisions: every paragraph with text goes to the "
+                    "language of its nearest division, per language in document order (C01_dfxp_doc_exact); SAMI abstract "
+                    "tree (C01_sami_tree_exact)"],
+        "definitional_or_spec_internal": ["C01_vtt_shift (identity between two spec functions)",
+                                          "C01_dfxp_blank_paragraph_ignored, C01_dfxp_missing_times_refused (unfold the "
+                                          "model)", "C01_dfxp_long_fraction_refuted (history: the pre-fix variant)",
+                                          "C01_dfxp_div_exact, C01_vtt_validation_transparent (liftings / corollaries)"],
+        "correspondence_only": ["DFXP/SAMI text -> abstract tree (BeautifulSoup / html.parser / lxml); the DFXP / SAMI "
+                                "documents are assembled by Python around Coq-rendered attribute strings",
+                                "float() literals of SAMI starts / MicroDVD rates are modelled as decimal literals "
+                                "(dec_literal), exact below 2^53",
+                                "Python int()/isdigit()/\\d outside ASCII digit strings (never generated)",
+                                "the lang option, reader reuse"]}
     res["trusted_extra"] = ["C01: Python int()/isdigit()/\\d modelled on ASCII digit strings only"]
     return res
 
